@@ -403,5 +403,42 @@ theorem sentC01_of_sentCallC01 (T : Tables) (na : Char → Bool) (maxLen : Nat) 
   obtain ⟨st', hs, hc, hcase⟩ := h
   exact ⟨⟨y.counter⟩, st', y.call, hs, hc, hcase⟩
 
+/-- ... and the complete expected observation (hook included) is the one stated from the call. -/
+theorem handed_eq_of_call (T : Tables) (hT : T.OK)
+    (htypes : T.messageType .methodCall = 1 ∧ T.messageType .methodReturn = 2 ∧ T.messageType .error = 3 ∧
+      T.messageType .signal = 4)
+    (C : BodyCodec β) (na : Char → Bool) (maxLen : Nat) (y : SentCall β) (st' : Msg.St)
+    (hc : construct T C na maxLen ⟨y.counter⟩ y.call = (st', .ok y.sent.msg)) :
+    y.sent.handed T = y.handed := by
+  have hv := expected_eq_expectedView T hT htypes C na maxLen y st' hc
+  obtain ⟨f1, f2, f3, f4, _, _⟩ := Msg.Main.constructed_from_arguments T hT C na maxLen ⟨y.counter⟩ st' y.call y.sent.msg hc
+  have hk : Hook.ofClass y.sent.msg.cls = callHook y.call := by
+    cases hcall : y.call with
+    | methodCall a => rw [(f1 a hcall).1]; rfl
+    | methodReturn a => rw [(f2 a hcall).1]; rfl
+    | error a => rw [(f3 a hcall).1]; rfl
+    | signal a => rw [(f4 a hcall).1]; rfl
+  simp only [Sent.handed, SentCall.handed, hv, hk]
+
+/-- `recvRun` over reads whose delivered frames are those of `xs`, each handed over quietly: state and effects
+are those of `run`, `_receivedFDs` is unchanged, and the hook calls are the expected ones, in order. -/
+theorem recvRun_sent {α : Type} (T : Tables) (C : BodyCodec β) (A : Auth α) (fds : List PyVal) (s : St α)
+    (reads : List Bytes) (xs : List (Sent β)) (hm : msgsOf (run A s reads).2 = xs.map (·.msg.raw))
+    (h : ∀ x ∈ xs, HandsOver T C fds x) :
+    (recvRun T C A s fds reads).1 = (run A s reads).1 ∧
+    (recvRun T C A s fds reads).2.1 = (run A s reads).2 ∧
+    (recvRun T C A s fds reads).2.2.1.map (Except.map (handedOf T)) = xs.map (fun x => .ok (x.handed T)) ∧
+    (recvRun T C A s fds reads).2.2.2 = fds := by
+  have hq : ∀ raw ∈ msgsOf (run A s reads).2, Quiet T C fds raw := by
+    intro raw hr
+    rw [hm] at hr
+    obtain ⟨x, hx, rfl⟩ := List.mem_map.1 hr
+    exact quiet_of_handsOver T C fds x (h x hx)
+  rw [recvRun_quiet T C A fds reads s hq]
+  refine ⟨rfl, rfl, ?_, rfl⟩
+  show ((msgsOf (run A s reads).2).map (callOf T C fds)).map _ = _
+  rw [hm]
+  exact calls_sent T C fds xs h
+
 end WithMsg
 end Txdbus.Proto
